@@ -58,3 +58,13 @@ claim("C14",
       "A seed-determined corpus is parsed once into shared expressions; goroutines behind a barrier run seed-determined operation sequences over shared and private inputs (also a shared custom driver). Every concurrent result must equal the sequential result, three sequential runs must agree, shared trees must be deep-equal to copies taken before use, and the -race build must report nothing. The number of truly overlapping operation pairs on shared inputs is measured and reported.",
       "The harness does not own the Go scheduler: interleavings are sampled; a race needs both conflicting accesses to execute (in any order) to be flagged. A schedule-dependent failure may not reproduce from the replay file, which therefore carries the history / race report.",
       "DESIGN.md section 4, C14")
+claim("C02",
+      "rapid hostile-content trees + exhaustive short token sequences; PostgreSQL's own scanner/grammar (pg_query) + whitelist walk + provenance sets",
+      "Every rendered SQL text (inline and parameterized) of generated queries whose field names and values come from a hostile pool (quotes, backslashes, ;, --, /* */, $1, ?, NaN, NUL, invalid UTF-8, > 63-byte names; written quoted and as escaped bare words) is scanned and parsed by libpg_query inside SELECT 1 FROM t WHERE (...): one statement, nothing but the WHERE filled in, no comment / separator / unbalanced parenthesis, only whitelisted node kinds, placeholders == parameters, every column a field name of the query (or the default field), every string constant / parameter a value of the query.",
+      "libpg_query v15 is PostgreSQL's grammar (trusted). Numeric constants are not tied to the query text here. Conditional on render success.",
+      "DESIGN.md section 4, C02")
+claim("C08",
+      "hostile-pool strings x {quoted, escaped} x 12 positions; oracle is the value itself, with PostgreSQL's literal decoder as the judge of the SQL constant",
+      "Every hostile-pool entry (alone, letter-prefixed, letter-suffixed) and random hostile strings up to 10^4 bytes are written between double quotes and as fully escaped bare words at 12 positions (f:v, bare, f:>=v, both range bounds, list element, under NOT/+/-, after AND, field group, field name); the tree leaf, the constant PostgreSQL decodes from the inline SQL at that position and the parameter at the expected index must each equal the value byte for byte.",
+      "Single-quoted phrases and values containing '\"' (quote clause) or numeric / keyword-looking values (escape clause) are outside the property. One open finding (F15: \"*\" as a range boundary) is excluded by signature and announced.",
+      "DESIGN.md section 4, C08")
